@@ -128,6 +128,10 @@ type variant struct {
 	desc      bool
 	typ       string
 	oriented  bool // members carry Orientation from annotate.Relations
+	// partial: only some members keep their Orientation (1: those at even
+	// positions, 2: those at odd positions); the others have none, as members
+	// added after the last annotation would
+	partial int
 }
 
 var variants = []variant{
@@ -135,6 +139,8 @@ var variants = []variant{
 	{name: "waynodes+boundary", annotated: true, typ: "boundary"},
 	{name: "oriented+nodes-desc", desc: true, typ: "multipolygon", oriented: true},
 	{name: "oriented+waynodes+boundary", annotated: true, typ: "boundary", oriented: true},
+	{name: "partly-oriented-even+nodes", typ: "multipolygon", oriented: true, partial: 1},
+	{name: "partly-oriented-odd+waynodes", annotated: true, typ: "multipolygon", oriented: true, partial: 2},
 }
 
 type failure struct {
@@ -259,6 +265,14 @@ func checkCaseNoKit(col *collector, t polycut.Truth, c polycut.Case, n *counts) 
 			// convert the annotated relation itself (same refs and roles,
 			// plus version, changeset and orientation)
 			b.Relation.Members = append(osm.Members(nil), am...)
+			if v.partial != 0 {
+				for i := range b.Relation.Members {
+					if i%2 == v.partial-1 {
+						continue
+					}
+					b.Relation.Members[i].Orientation = 0
+				}
+			}
 		}
 		fc, err := osmgeojson.Convert(b.OSM)
 		n.conv++
